@@ -3,7 +3,8 @@
    Result: 0 ok (implementation agrees with the model on both chains and its finalized blocks -- ids included -- are on one
    chain, or the property's hypotheses do not hold); 1 implementation differs from the model (bookkeeping only); 2 differs on
    the property's observables; 9 malformed case (id lists do not match the block lists).  20/21/22 are reached ONLY when the
-   implementation agrees with the model on both chains: the implementation's own views finalize conflicting blocks although
+   implementation agrees with the model on both chains (then the oracle is evaluated on the model, Universe.texamine): the views
+   finalize conflicting blocks although
    < 1/3 of the weight is Byzantine (Byzantine = some two DISTINCT blocks of the validator, distinct as identified histories,
    carry contradicting headers; a same-tuple / different-id double forger is Byzantine):
      21 the BFT parameters (precommit threshold, validator weights) in force at some height between the fork point and the
@@ -45,20 +46,19 @@ Definition check_uni (u : uni_case) : N :=
   if (2 <=? ca) || (2 <=? cb) then 2 else
   if (1 <=? ca) || (1 <=? cb) then 1 else
   if negb initok then 0 else
-  (* safety oracle on the implementation's own answers *)
-  if negb (all_ok (length K1) obsA && all_ok (length K2) obsB) then 0 else
-  let valid := forallb (fun x => x) (map (fun p => h_mhp (fst (fst p)) =? snd p)
-                 (combine K1 (gh :: map (fun o => let '(pv, _, _) := o_heights o in pv) obsA)))
-            && forallb (fun x => x) (map (fun p => h_mhp (fst (fst p)) =? snd p)
-                 (combine K2 (gh :: map (fun o => let '(pv, _, _) := o_heights o in pv) obsB))) in
-  if negb valid then 0 else
-  let f1 := last_fin gh obsA in let f2 := last_fin gh obsB in
-  if tcomparable (tfinalized_prefix gh T1 f1) (tfinalized_prefix gh T2 f2) then 0 else
+  (* From here on check_hist = 0 on both chains: every observation of the implementation (errors, contradiction flags, the three
+     heights, window, active list, parameter keys) EQUALS the model's.  The safety oracle is therefore evaluated on the model
+     (Universe.texamine over the id-tagged chains): validity of both chains (consecutive heights, header maxHeightPrevoted = the
+     view's, no contradiction, no error), the finalized heights of both views, comparability of the finalized histories with ids.
+     C01_texamine_safe / CheckUniSound.check_uni_static_not_22 then apply to the verdict verbatim. *)
+  let v := texamine batch gh c T1 T2 in
+  if negb (vd_valid v) then 0 else
+  if vd_safe v then 0 else
   (* parameters in force at the fork point: the last change announced in the common prefix, else the initial ones *)
   let fork := gh + N.of_nat (length common) in
   let cf := in_force gh c common (fork + 1) in
   let W := total_weight (c_vals cf) in
   let f := tbyz_weight (c_vals cf) [T1; T2] in
   if negb (3 * f <? W) then 0 else
-  if changed_below gh c cf K1 fork f1 || changed_below gh c cf K2 fork f2 then 21 else
+  if changed_below gh c cf K1 fork (vd_fin1 v) || changed_below gh c cf K2 fork (vd_fin2 v) then 21 else
   if (W * 2 / 3 + 1) + c_pc cf <=? W + f then 20 else 22.
